@@ -1,4 +1,5 @@
 import ExprModel.Spec.Eval
+import ExprModel.Opt.Driver
 import ExprModel.Drv.Code
 /- driver stage `speceval`: the reference evaluator on a (typed) tree -/
 namespace ExprModel.Drv
@@ -9,6 +10,40 @@ def specOutcome (r : R Val × Spec.SState) : Sexp :=
   match res with
   | .ok v => .list [.atom "ok", v.toSexp, Sexp.int s.memory, Sexp.nat s.created, logToSexp s.log]
   | .error e => .list [.atom "err", .atom e.name, Sexp.int s.memory, Sexp.nat s.created, logToSexp s.log]
+
+/-! ### refusing absurd ranges
+`Spec.eval` builds the elements of a range before it checks the budget (the order is part of what the
+refinement proofs unfold), so the *driver* refuses trees in which a range could have more than 2e6
+elements instead of building it: literal bounds (after the model's constant folding) too far apart, or a
+bound taken from an environment that contains an integer beyond ±2e6. -/
+
+partial def hugeRange (lim : Int) (dynHuge : Bool) : Node → Bool
+  | .binary _ op l r =>
+    (op == ".." && (match l, r with
+      | .int _ a, .int _ b => b - a > lim
+      | .int _ a, _ => dynHuge || a < -lim
+      | _, .int _ b => dynHuge || b > lim
+      | _, _ => dynHuge)) || hugeRange lim dynHuge l || hugeRange lim dynHuge r
+  | .unary _ _ x | .prop _ x _ _ | .closure _ x => hugeRange lim dynHuge x
+  | .matches _ _ l r | .index _ l r | .pair _ l r => hugeRange lim dynHuge l || hugeRange lim dynHuge r
+  | .slice _ x f t => hugeRange lim dynHuge x || (f.map (hugeRange lim dynHuge)).getD false || (t.map (hugeRange lim dynHuge)).getD false
+  | .method _ x _ args _ => hugeRange lim dynHuge x || args.any (hugeRange lim dynHuge)
+  | .func _ _ args _ | .builtin _ _ args | .array _ args | .map _ args => args.any (hugeRange lim dynHuge)
+  | .cond _ a b d => hugeRange lim dynHuge a || hugeRange lim dynHuge b || hugeRange lim dynHuge d
+  | _ => false
+
+partial def valHasHugeInt (lim : Int) : Val → Bool
+  | .int _ n => n > lim || n < -lim
+  | .arr _ xs | .set _ xs => xs.any (valHasHugeInt lim)
+  | .map kvs | .struct _ _ kvs => kvs.any fun kv => valHasHugeInt lim kv.2
+  | _ => false
+
+/-- constant bounds become literals under the model's fold pass; the scan is done on the folded tree -/
+def refuseRange (env : Val) (n : Node) (lim : Int := 2000000) : Bool :=
+  let folded := match Opt.repeatPass true (Opt.foldRule Opt.Flags.asWas (mkWorld [])) Opt.foldWalks n with
+    | .ok n' => n'
+    | .error _ => n
+  hugeRange lim (valHasHugeInt lim env) folded
 
 /-- `(speceval <budget> (flags <rangeSigned> <sliceToFirst>) <cast|_> <env> <node>)` -/
 def handleSpec : List Sexp → Sexp
@@ -21,6 +56,7 @@ def handleSpec : List Sexp → Sexp
         | "int64" => some 0
         | "float64" => some 1
         | _ => none
+      if refuseRange env n then .list [.atom "refused", .atom "huge-range"] else
       specOutcome (Spec.run c cst n)
     | _, _, _ => .list [.atom "bad-request"]
   | _ => .list [.atom "bad-request"]
